@@ -45,7 +45,45 @@ class World:
         self.pay_t2 = Payload(t2, columns_available={build.tag(c): t2.c[c] for c in ("a", "c")})
         leaf_t = self.eng["sql"].make_leaf(build.tags(("a", "b")), self.pay_t, name="T", min_rows=4, max_rows=4)
         leaf_t2 = self.eng["sql"].make_leaf(build.tags(("a", "c")), self.pay_t2, name="T2", min_rows=0, max_rows=None)
-        self.leaves = [leaf_l, leaf_t, leaf_t2]
+        # fourth initial member: what Processor.process() returns for L transferred into the SQL engine
+        # (its Transfer holds a payload: a temporary table that lives as long as this world)
+        self.proc0 = make_processor(conn, self.eng["sql"])
+        processed_l = self.proc0.process(leaf_l.transferred_to(self.eng["sql"]))
+        self.leaves = [leaf_l, leaf_t, leaf_t2, processed_l]
+
+    def close(self):
+        self.proc0.cleanup()
+
+    @staticmethod
+    def marker_state(pool):
+        """Content fingerprint of every payload held by a marker of any pool member."""
+        from lsst.daf.relation import BinaryOperationRelation, MarkerRelation, UnaryOperationRelation
+        from lsst.daf.relation.iteration import RowSequence
+        from lsst.daf.relation.sql import Payload
+
+        seen = {}
+
+        def walk(x):
+            match x:
+                case UnaryOperationRelation(target=target):
+                    walk(target)
+                case BinaryOperationRelation(lhs=lhs, rhs=rhs):
+                    walk(lhs)
+                    walk(rhs)
+                case MarkerRelation(target=target):
+                    p = x.payload
+                    if p is not None and id(x) not in seen:
+                        if isinstance(p, Payload):
+                            seen[id(x)] = ("sql", str(p.from_clause), len(p.where), tuple(sorted(k.qualified_name for k in p.columns_available)))
+                        elif isinstance(p, RowSequence):
+                            seen[id(x)] = ("rows", tuple(tuple(sorted((k.qualified_name, v) for k, v in r.items())) for r in p.rows))
+                        else:
+                            seen[id(x)] = ("other", type(p).__name__)
+                    walk(target)
+
+        for r in pool:
+            walk(r)
+        return seen
 
     def leaf_state(self):
         return (
@@ -96,6 +134,14 @@ BUILDERS = ("un", "chain", "join", "mat", "xfer")
 
 
 def replay_state(st: dict, out: dict) -> None:
+    w = World()
+    try:
+        _replay_state(st, out, w)
+    finally:
+        w.close()
+
+
+def _replay_state(st: dict, out: dict, w) -> None:
     from lsst.daf.relation import Diagnostics
 
     viol = out["violations"]
@@ -105,10 +151,10 @@ def replay_state(st: dict, out: dict) -> None:
     def V(props, what, **kw):
         viol.append({"properties": props, "family": "pool", "what": what, "case": case, **kw})
 
-    w = World()
     pool = list(w.leaves)
     prints = [fp(r) for r in pool]
     leaf0 = w.leaf_state()
+    markers0 = w.marker_state(pool)
     first_sql: dict = {}
     first_rows: dict = {}
     model_rows = st["rows"]
@@ -183,6 +229,12 @@ def replay_state(st: dict, out: dict) -> None:
         if w.leaf_state() != leaf0:
             V(["C09"], "the content of a leaf payload changed", step=step, action=a, before=str(leaf0)[:300], after=str(w.leaf_state())[:300])
             leaf0 = w.leaf_state()
+        markers_now = w.marker_state(pool)
+        for mid, was in markers0.items():
+            if mid in markers_now and markers_now[mid] != was:
+                V(["C09", "C10"], "the content of a payload cached on a transfer / materialization changed (compiling or evaluating a relation "
+                                  "built on it must not edit it)", step=step, action=a, before=str(was)[:300], after=str(markers_now[mid])[:300])
+        markers0 = {**markers0, **markers_now}
         for i, txt in list(first_sql.items()):
             try:
                 now = sql_text(w, pool[i])
